@@ -77,7 +77,7 @@ var c01Rules = []c01Rule{
 		t: []string{"function t(p,q,r){return p}f(t(1,2,3))", "function t(p,q,r){return q}f(t(1,2,3))", "function t(p,q){return arguments[1]}f(t(1,2))", "function t(p,q=f(9)){return p}g(t(1))", "function t(p,...q){return p}f(t(1,2))",
 			"function t(p,{q}){return p}f(t(1,{}))", "x=(p,q)=>p;f(x(1,2))", "x={m(p,q){return p},set s(v){}};f(x.m(1,2))", "class C{constructor(p,q){this.p=p}}f(new C(1,2).p)", "function t(p,q){\"use strict\";return arguments.length}f(t(1,2))"}, hit: `function t\(p\)\{return p\}`},
 	{id: "fn-length-eval", doc: "js.go:531 removing unused parameters changes Function.length and what a direct eval sees", kind: 'P',
-		t: []string{"function t(p,q,r){return q}f(t(1,2,3),t.length)", "function t(p,q){return eval(\"q\")}f(t(1,2))", "x=function(p,q){};f(x.length)", "x={m(p,q){}};f(x.m.length)", "class C{m(p,q){}}f(new C().m.length)"}, known: "K12-fn-length"},
+		t: []string{"function t(p,q,r){return q}f(t(1,2,3),t.length)", "function t(p,q){return eval(\"q\")}f(t(1,2))", "x=function(p,q){};f(x.length)", "try{throw 1}catch(e){eval(\"g(e)\")}", "x={m(p,q){}};f(x.m.length)", "class C{m(p,q){}}f(new C().m.length)"}, known: "K12-fn-length"},
 	{id: "lit-string", doc: "util.go:1236-1280 string literal: quotes, escapes", kind: 'P',
 		t: []string{"x='a\"b';y=\"it's\";z=\"\\x41B\\101\";f(x,y,z)", "x=\"\\074\\200\\0001\";f(x)", "x='\\'\\\"';y=\"a\\\nb\";z='\\u{1F600}\\u0041';f(x,y,z)", "x=\"</script>\";y='<\\/script';z=\"<!--\";f(x,y,z)", "x='\\0';y='\\08';z=\"\\v\\f\\b\\t\\r\\n\";f(x,y,z)", "x=\"\\a\\c\\e\\-\";y='\\$\\{';f(x,y)", "x=\"`${\";y='a`b';f(x,y)"}, hit: `z="ABA"`},
 	{id: "lit-template", doc: "js.go template literals", kind: 'P',
@@ -158,6 +158,18 @@ var c01Rules = []c01Rule{
 	{id: "block-flatten", doc: "stmtlist.go:116-122 blocks merged into the parent, lexical declarations of an otherwise unused scope", kind: 'P',
 		t: []string{"{f(1);g(2)}", "if(a){f(1)}", "{let z=f(1)}", "{let z=f(1);g(z)}", "{const z=f(1)}", "{let z=f(1),y=g(2)}", "{let z}", "{let z=f(1)}{let z=g(2)}", "{class Z{}}", "{function z(){}}f(typeof z)", "{var z=1}f(z)", "{{f(1)}}", "{}f(1)", "{f(1)}g(2)", "if(a){let z=f(1)}", "if(a){let z=f(1)}else{let y=g(2)}", "for(;;){let z=f(1);break}",
 			"let z=1;{let z=2;f(z)}f(z)", "let z=1;{let z=f(2)}f(z)", "{let z=()=>z;f(typeof z)}", "function t(){{let z=f(1)}return 1}g(t())", "{let{z}=o1}", "{let[z]=[f(1)]}", "{let z=f(1);var y=z}g(y)", "l:{f(1);break l}", "{\"use strict\";f(1)}", "switch(a){case 1:{let z=f(1)}}", "try{let z=f(1)}catch(e){}", "x=()=>{{let z=f(1)}};x()", "if(a){function z(){}}else{f(typeof z)}"}, hit: `^f\(1\),g\(2\)$`},
+	{id: "else-function-flatten", doc: "stmtlist.go: a flattened else block takes its function declarations into the parent scope (K-C01-7)", kind: 'P',
+		t: []string{"f(typeof z);if(a)throw 1;else{function z(){}}", "\"use strict\";function t(p){if(p)return 1;else{function z(){}}return typeof z}f(t(a))", "function t(p){g(typeof z);if(p)return 1;else{function z(){}}return typeof z}f(t(a))",
+			"f(typeof z);if(a){function z(){}}else throw 1"}, known: "S11f-else-function"},
+	{id: "class-effects", doc: "stmtlist.go:118 / util.go hasSideEffects: a class is treated as pure (K-C01-13)", kind: 'P',
+		t: []string{"{class C{static s=f(1)}}", "if(a){class C{static s=f(1)}}", "{class C extends f(1){}}", "{class C{static{f(1)}}}", "{class C{[f(1)](){}}}", "{let z=class{static s=f(1)}}", "x=void class{static s=f(1)};g(x)"}, known: "S15-class-effects"},
+	{id: "class-pure", doc: "stmtlist.go:118 a block with a lone class without heritage, computed keys and static initialisers is dropped", kind: 'P',
+		t: []string{"{class C{}}f(1)", "{class C{m(){f(1)}static t=1;u=f(2)}}g(3)", "if(a){class C{static m(){}}}g(1)", "{let z=class{}}f(1)", "{class C{}f(typeof C)}", "{class C{static s=1}f(C.s)}"}, hit: `^f\(1\)$`},
+	{id: "hoist-object-pattern", doc: "vars.go hoistVars: a var declaration with an object pattern that binds nothing becomes `{…}=…` at the start of a statement (K-C01-14)", kind: 'P',
+		t: []string{"function t(){var {a}=o1;let z=1;var {n:[]}=o2}t()", "function t(){var {a}=o1;let z=1;var {}=o2;g(a)}t()", "var {a}=o1;let z=2;var {n:[]}=o2;g(a,z)"}, known: "S16-hoist-empty-pattern"},
+	{id: "hoist-pattern", doc: "vars.go hoistVars: destructuring declarations as hoist target / converted to assignments", kind: 'P',
+		t: []string{"function t(){var {a}=o1;f(a);var [b]=o2;g(b)}t()", "function t(){var z=1;f(z);var {a}=o1,y=2;g(a,y)}t()", "function t(){var {a}=o1;f(a);var {n:[]}=o2;g(1)}t()", "var {a}=o1;if(a)var {n:[]}=o2;g(a)", "var {a}=o1;for(var {n:[]}=o2;;)break",
+			"function t(){var [a]=[1];let z=1;var [b]=[2];g(a,b,z)}t()", "function t(){var {a}=o1;f(a);var {b}=o2;g(b)}t()", "function t(){var z=1;for(var {a} of [o1])g(a,z)}t()", "function t(){var z=1;for(var k in o1)g(k,z)}t()"}, hit: `var\{a\}=o1,b;f\(a\),\[b\]=o2`},
 	{id: "loop-rewrite", doc: "js.go while(a) => for(;a;), do-while, for body", kind: 'P', t: []string{"while(a<3)a++;f(a)", "do a++;while(a<3);f(a)", "for(;;){f(1);break}", "while(true){f(1);break}", "while(1)break;f(1)", "while(0)f(1);g(2)", "do{f(1)}while(0);g(2)", "do f(1);while(a>b&&0)", "for(;true;)break", "for(;!0;){f(1);break}", "while(a){a=0}", "for(;a;)a=0;",
 		"do;while(f(1)<0)", "while(f(1),0);", "for(var i=0;i<2;i++){}f(i)", "for(var i=0;i<2;i++);f(i)", "for(var i=0;i<2;i++){f(i)}", "for(var i=0;i<2;i++){f(i);g(i)}", "for(var i=0;i<2;i++)if(a)f(i)", "while(a<3){a++;if(b)break}", "do{if(a)break;a=1}while(1)", "do var z=1;while(0);f(z)", "if(a)do f(1);while(0);else g(2)", "if(a)while(0);else g(2)"}, hit: `for\([^;]*;a<3;\)a\+\+`},
 	{id: "dead-var-after-flow", doc: "stmtlist.go optimizeStmtList: statements after return/throw/break/continue are kept (a hoisted var declaration still binds)", kind: 'P',
@@ -177,7 +189,7 @@ var c01Rules = []c01Rule{
 			"for(var z=k=>(c,k in o1);;){f(z(\"a\"));break}", "for(var z=k=>c||k in o1;;){f(z(\"a\"));break}", "for(var z=k=>c?k in o1:1;;){f(z(\"a\"));break}", "for(var z=k=>!(k in o1);;){f(z(\"a\"));break}", "for(var z=k=>c=k in o1;;){f(z(\"a\"));break}", "for(var z=(k,l=k in o1)=>l;;){f(z(\"a\"));break}", "for(var z=k=>({m:k in o1});;){f(z(\"a\").m);break}"}, hit: `k1=k=>\(k in o1\)`},
 	{id: "obj-literal", doc: "js.go object literals: shorthand, quoted keys, numeric keys, methods", kind: 'P', t: []string{"x={a:a,b:b,f:function(){return 1},\"c\":1,\"d e\":2,1:3};f(x)", "x={\"a\":a,'b':1,\"1\":2,\"01\":3,0x10:4,1e3:5,\"__proto__\":null};f(x)", "x={[a]:1,[\"b\"]:2,get c(){return 1},set c(v){},async*d(){}};f(x)", "x={a,b,...o1};f(x)", "({a:x,b:y=1}={a:1});f(x,y)", "x={\"constructor\":1,if:2,\"class\":3};f(x)", "class C{\"a\"(){return 1}static\"b\"=2;'c'=3;1(){}}f(new C().a(),C.b)"}, hit: `x=\{a,b,f:function\(\)\{return 1\},c:1,"d e":2,1:3\}`},
 	{id: "new-args", doc: "js.go new X() => new X", kind: 'P', t: []string{"x=new Date(0);y=new Date;y=0;z=new(f())();f(x.getTime())", "x=new f;y=new f();z=new f(1);w=new f().a;v=new f.a();g(x,y,z,w,v)", "x=new(f())();y=new(f().a);z=new(f.a());w=(new f).a;v=new(f)(1);g(x,y,z,w,v)", "x=new new f()();y=new new f;z=new(new f);g(x,y,z)", "x=new f()();y=(new f)();z=new f()`t`;g(x,y,z)", "x=new(a?f:g)();y=new(a,f);z=new(f``);g(x,y,z)"}, hit: `y=new Date,y=0,z=new\(f\(\)\)`},
-	{id: "catch-binding", doc: "js.go try{}catch(e){} => catch{} (ES2019)", kind: 'P', t: []string{"try{f(1)}catch(e){}", "try{f(1)}catch(e){g(2)}", "try{f(1)}catch(e){g(e)}", "try{f(1)}catch({message:m}){g(2)}", "try{f(1)}catch(e){var e=2}g(typeof e)", "try{f(1)}catch(e){eval(\"g(e)\")}", "try{f(1)}catch(e){{let e=1}}", "try{f(1)}catch(e){(()=>e)()}", "try{f(1)}finally{g(2)}", "try{}catch(e){f(1)}finally{g(2)}", "try{}finally{}f(1)"}, hit: `catch\{\}`},
+	{id: "catch-binding", doc: "js.go try{}catch(e){} => catch{} (ES2019)", kind: 'P', t: []string{"try{f(1)}catch(e){}", "try{f(1)}catch(e){g(2)}", "try{f(1)}catch(e){g(e)}", "try{f(1)}catch({message:m}){g(2)}", "try{f(1)}catch(e){var e=2}g(typeof e)", "try{f(1)}catch(e){{let e=1}}", "try{f(1)}catch(e){(()=>e)()}", "try{f(1)}finally{g(2)}", "try{}catch(e){f(1)}finally{g(2)}", "try{}finally{}f(1)"}, hit: `catch\{\}`},
 	{id: "iife-fn-paren", doc: "js.go expectExpr: function/class/object/let[ at the start of an expression statement keep their parentheses", kind: 'P', t: []string{"x=function(){return 1}();f(x)", "!function(){f(1)}()", "(function(){f(1)})()", "(()=>{f(1)})()", "(function(){f(1)}())", "(function(){return f})()(1)", "(class{static m(){f(1)}}).m()", "({a:1}).a", "({}).toString.call(a)", "(function(){}).name,f(1)", "(async function(){f(1)})()", "(function*(){f(1)})().next()", "(a,function(){f(1)})()",
 		"(function(){f(1)})(),g(2)", "(function(){f(1)})()?g(2):h(3)", "(function(){f(1)})()||g(2)", "(function(){}).a=1", "(function z(){f(typeof z)})()", "({a:f}).a(1)", "({a}=o1);f(a)", "({}=o1)", "([a]=[1]);f(a)", "(let_)[0]", "(async()=>{f(1)})()", "(a=>{f(a)})(1)", "(a=>f(a))(1)", "x=(a=>a)(1);f(x)", "(function(){f(1)}).call(o1)", "new(function(){f(1)})", "void function(){f(1)}()", "typeof function(){}", "`${function(){}}`", "f(function(){}(),1)"}, hit: `x=function\(\)\{return 1\}\(\)`},
 	{id: "arrow-params", doc: "js.go arrow functions: single parameter without parentheses, object body parenthesised", kind: 'P', t: []string{"x=(p)=>p;f(x(1))", "x=(p,q)=>p+q;f(x(1,2))", "x=()=>1;f(x())", "x=(p=1)=>p;f(x())", "x=({p})=>p;f(x({p:1}))", "x=([p])=>p;f(x([1]))", "x=(...p)=>p;f(x(1))", "x=p=>({a:p});f(x(1))", "x=p=>({}).a;f(x(1))", "x=p=>(p,1);f(x(1))", "x=p=>(function(){});f(typeof x(1))", "x=p=>q=>p+q;f(x(1)(2))", "x=(p=>p)(1);f(x)", "x=p=>p?1:2;f(x(a))", "x=a?p=>p:q=>q;f(x(1))", "x=(p=>p)||b;y=a||(p=>p);f(typeof x,typeof y)", "x=(p=>p).length;f(x)", "x=typeof(p=>p);f(x)", "x=async(p)=>p;x(1).then(f)", "x=(async)=>async;f(x(1))", "x=(p)=>{};f(x(1))",
